@@ -304,6 +304,9 @@ func (p *ReverseProxy) clusterInvoke(srv *BfeServer, cluster *bfe_cluster.BfeClu
 			retVal := hl.FilterForward(request)
 			switch retVal {
 			case bfe_module.BfeHandlerFinish:
+				// the backend has not been charged with this request yet
+				// (IncConnNum() below), so FinishReq() must not discharge it
+				request.Trans.Backend = nil
 				// close the connection after response
 				action = closeAfterReply
 				return
